@@ -123,8 +123,9 @@ def confirm_eval(ctx, cands):
                     # may depend on map iteration order: retry in fresh processes before giving up
                     it["tries"] = it.get("tries", 0) + 1
                     if it["tries"] > 12:
-                        raise Broken("candidate did not reproduce in 13 re-executions: %s" % pretty.se(it["expr"])[:300])
-                    nxt.append(it)
+                        UNREPRODUCED.append("eval %s" % pretty.se(it["expr"])[:300])
+                    else:
+                        nxt.append(it)
                 continue        # repaired tree is fine: every difference was explained
             minimal = [i for i in sorted(bad) if not any(po[i][1] <= j < i for j in bad)]
             for i in minimal:
@@ -271,11 +272,13 @@ def confirm_events(ctx, kind, cands):
                 execd[k] = e2[j]
     for k, (ev, _) in enumerate(events):
         if k not in bad:
-            raise Broken("candidate (%s) did not reproduce in 13 re-executions: %s" % (kind, json.dumps(ev)[:300]))
+            UNREPRODUCED.append("%s %s" % (kind, json.dumps(ev)[:300]))
     confirmed = []
     small, owner = [], []
     if spec.get("shrink"):
         for k, (ev, _) in enumerate(events):
+            if k not in bad:
+                continue
             for s in spec["shrink"](ev, bad[k]):
                 small.append(s)
                 owner.append(k)
@@ -288,7 +291,7 @@ def confirm_events(ctx, kind, cands):
                 confirmed.append(dict(kind=kind, stage=events[owner[j]][1], case=s, obs=sexec[j].get("obs"), exp=sbad[j].get("exp"),
                                       descr=spec["describe"](s, sexec[j].get("obs"), sbad[j])))
     for k, (ev, stage) in enumerate(events):
-        if k not in explained:
+        if k not in explained and k in bad:
             confirmed.append(dict(kind=kind, stage=stage, case=ev, obs=execd[k].get("obs"), exp=bad[k].get("exp"),
                                   descr=spec["describe"](ev, execd[k].get("obs"), bad[k])))
     return confirmed
@@ -325,11 +328,15 @@ def confirm_replay(ctx, kind, cands):
                 confirmed.append(dict(kind=kind, stage=cases[k][1], case=cases[k][0], obs=dd["obs"], exp=cases[k][0].get("exp"),
                                       descr=spec["describe"](cases[k][0], dd["obs"], {"exp": cases[k][0].get("exp")})))
         pending = still
-    if pending:
-        raise Broken("candidate (%s) did not reproduce in 8 re-executions: %s" % (kind, json.dumps(cases[pending[0]][0])[:300]))
+    for k in pending:
+        UNREPRODUCED.append("%s %s" % (kind, json.dumps(cases[k][0])[:300]))
     return confirmed
 
 
+# Candidates that did not show again in the re-executions (a divergence that depends on map order or scheduling).  They
+# are never verdicts; when other candidates of the run are confirmed those are reported and these are counted in the
+# evidence; when NOTHING reproduces the check is flaky and says so (exit 2).
+UNREPRODUCED = []
 MAX_CONFIRM = 60      # candidates confirmed per kind; the rest are counted, not re-executed
 
 
@@ -351,6 +358,11 @@ def confirm_all(ctx, cands):
             out += confirm_events(ctx, k, sub)
         else:
             out += confirm_replay(ctx, k, sub)
+    if UNREPRODUCED:
+        ctx.extra["unreproduced_candidates"] = len(UNREPRODUCED)
+        log("%d candidate(s) did not reproduce in the re-executions, e.g. %s" % (len(UNREPRODUCED), UNREPRODUCED[0][:200]))
+        if not out:
+            raise Broken("no candidate reproduced in the re-executions (%d), e.g. %s" % (len(UNREPRODUCED), UNREPRODUCED[0]))
     return out
 
 
@@ -945,7 +957,7 @@ def replay(ctx, path):
     try:
         confirmed = confirm_all(ctx, cands)
     except Broken as e:
-        if "did not reproduce" in str(e):
+        if "reproduced in the re-executions" in str(e):
             print("replay: not reproduced on this tree")
             ctx.cleanup()
             return 0
